@@ -1,7 +1,7 @@
 (** Soundness of foreign-key resolution, part 6 (property C06): the canonical printer [xprint] of the
     full source AST agrees with the printer of stage 1 on unpadded sources, so the parser statement
     [parse_args_statement] holds for every source of the full AST that is the image of a well-formed
-    stage-1 source (string arguments holding text / variables / argument-less references). *)
+    stage-1 source without padding and formatter. *)
 From Coq Require Import List NArith ZArith Bool Arith Lia.
 Import ListNotations.
 From LI Require Import Base.StrOps Base.StrLemmas Parser.Parse Parser.Json Parser.Reduce Parser.Source Parser.RoundTrip1
